@@ -72,6 +72,11 @@ type Harness struct {
 	Stubs      []string // components that are stubs
 	Assume     []string
 	KnownClass func(class string) bool // unused by workers; known findings are decided by the orchestrator
+	// Craft, if set, returns a prefix of the G stream for run index `run` in the thorough tier: harnesses with a
+	// finite fault-position space sweep it systematically (position = run mod size) while everything after the
+	// prefix, and the whole schedule stream, still comes from the PRNG. The consumed tape is recorded as usual, so
+	// replay and minimisation do not know about crafting.
+	Craft func(run uint64) []uint32
 }
 
 type replayFile struct {
@@ -192,6 +197,9 @@ func Main(t *testing.T, h Harness) {
 		}
 		run := uint64(worker) + uint64(k)*uint64(stride)
 		tape := simrt.NewTape(seed, h.Property, run)
+		if h.Craft != nil && tier == "thorough" {
+			tape.G.Vals = append([]uint32(nil), h.Craft(run)...)
+		}
 		o := h.Run(t, tape)
 		sum.Runs++
 		sum.Steps += int64(o.Sched.Steps)
@@ -223,7 +231,11 @@ func Main(t *testing.T, h Harness) {
 			continue
 		}
 		if os.Getenv("VERIF_DIVERGE") != "" {
-			o2 := h.Run(t, simrt.NewTape(seed, h.Property, run))
+			tp2 := simrt.NewTape(seed, h.Property, run)
+			if h.Craft != nil && tier == "thorough" {
+				tp2.G.Vals = append([]uint32(nil), h.Craft(run)...)
+			}
+			o2 := h.Run(t, tp2)
 			a, b := o.Sched.Trace, o2.Sched.Trace
 			n := len(a)
 			if len(b) < n {
@@ -242,7 +254,11 @@ func Main(t *testing.T, h Harness) {
 			}
 		}
 		if selftest {
-			o2 := h.Run(t, simrt.NewTape(seed, h.Property, run))
+			tp2 := simrt.NewTape(seed, h.Property, run)
+			if h.Craft != nil && tier == "thorough" {
+				tp2.G.Vals = append([]uint32(nil), h.Craft(run)...)
+			}
+			o2 := h.Run(t, tp2)
 			sg2 := hash64(o2.Sig, strconv.FormatUint(o2.Sched.Hash, 16))
 			if sg2 != sg || firstClass(o2) != firstClass(o) {
 				sum.SelfTestBad = append(sum.SelfTestBad, fmt.Sprintf("run %d: %016x/%s vs %016x/%s", run, sg, firstClass(o), sg2, firstClass(o2)))
